@@ -177,7 +177,7 @@ func ftokenize(s string) ([]string, error) {
 			toks = append(toks, s[i:j])
 			i = j
 		default:
-			for _, op := range []string{"&&", "||", "==", "!=", "<=", ">=", "<", ">", "!", "(", ")", "+", "-"} {
+			for _, op := range []string{"&&", "||", "==", "!=", "<=", ">=", "<", ">", "!", "(", ")", "+", "-", "%"} {
 				if strings.HasPrefix(s[i:], op) {
 					toks = append(toks, op)
 					i += len(op)
@@ -198,7 +198,7 @@ func signPosition(toks []string) bool {
 		return true
 	}
 	switch toks[len(toks)-1] {
-	case "&&", "||", "==", "!=", "<=", ">=", "<", ">", "!", "(", "+", "-":
+	case "&&", "||", "==", "!=", "<=", ">=", "<", ">", "!", "(", "+", "-", "%":
 		return true
 	}
 	return false
@@ -276,7 +276,7 @@ func (p *fparser) sum() (*fexpr, error) {
 	if err != nil {
 		return nil, err
 	}
-	for p.peek() == "+" || p.peek() == "-" {
+	for p.peek() == "+" || p.peek() == "-" || p.peek() == "%" {
 		op := p.peek()
 		p.pos++
 		b, err := p.prim()
@@ -377,13 +377,16 @@ func (in *Interp) evalF(e *fexpr) fval {
 			}
 		}
 		return fval{undef: true}
-	case "+", "-":
+	case "+", "-", "%":
 		a, b := in.evalF(e.a), in.evalF(e.b)
 		if a.undef || b.undef || a.isStr || b.isStr || a.isBool || b.isBool {
 			return fval{undef: true}
 		}
 		if e.op == "+" {
 			return fval{t: st.Bin(OpAdd, a.t, b.t)}
+		}
+		if e.op == "%" {
+			return fval{t: st.Bin(OpSRem, a.t, b.t)}
 		}
 		return fval{t: st.Bin(OpSub, a.t, b.t)}
 	case "!":
